@@ -17,7 +17,7 @@ import z3
 from . import pv
 from .pv import PV, SInt, SAny, VList, VDict, VSet, VKeys, VSeqIter, VObj, Unsupported, snapshot, lower, lift
 from .apply import spec_eval, spec_bool, havoc_value
-from .contract import parse_expr, pre_exprs
+from .contract import parse_expr, pre_exprs, prev_exprs
 from .explore import PathEnd
 
 
@@ -175,6 +175,7 @@ def cut_loop(it, node, env, spec, iterable):
     it.pre_frames = getattr(it, 'pre_frames', [])
     it.pre_frames.append(pre)
 
+    pushed_prev = False
     try:
         # ---- invariant on entry
         for j, s in enumerate(invs):
@@ -294,6 +295,18 @@ def cut_loop(it, node, env, spec, iterable):
         variant0 = None
         if spec.get('variant'):
             variant0 = spec_eval(it, spec['variant'], env)
+        # step clauses: relations between the state at the start and at the end of an arbitrary iteration
+        # (prev(e) = e at the start); the building blocks of a lexicographic termination argument
+        steps = dict(spec.get('step', {}))
+        prevs = {}
+        for s in steps.values():
+            for e in prev_exprs(parse_expr(s)):
+                key = ast.dump(e)
+                if key not in prevs:
+                    prevs[key] = snapshot(spec_eval(it, e, env))
+        it.prev_frames = getattr(it, 'prev_frames', [])
+        it.prev_frames.append(prevs)
+        pushed_prev = True
 
         # ---- iteration or exit
         if is_for:
@@ -342,6 +355,9 @@ def cut_loop(it, node, env, spec, iterable):
             for j, s in enumerate(invs):
                 ctx.oblige('%s.inv[%d].keep' % (tag, j), spec_bool(it, s, env), node.lineno, 'inv-keep',
                            info={'clause': s})
+            for sname, s in steps.items():
+                ctx.oblige('%s.step.%s' % (tag, sname), spec_bool(it, s, env), node.lineno, 'step',
+                           info={'clause': s})
             if variant0 is not None:
                 v1 = spec_eval(it, spec['variant'], env)
                 a, b = pv.as_term_int(variant0), pv.as_term_int(v1)
@@ -360,3 +376,5 @@ def cut_loop(it, node, env, spec, iterable):
         it.exec_block(node.orelse, env)
     finally:
         it.pre_frames.pop()
+        if pushed_prev:
+            it.prev_frames.pop()
